@@ -14,7 +14,7 @@ class SortWorkload:
 
 
 def build(rng, casedir, index, nrec=None, untagged=True, force_all_known=False, n_chrom=None,
-          few_anchors=False, tags="safe", mode=None, layout=None):
+          few_anchors=False, tags="safe", mode=None, layout=None, text_variants=True):
     w = SortWorkload()
     g = chain.gen_chain_rgfa(rng, n_chrom=n_chrom, id_style=rng.choice(["s", "name"]),
                              scaffolds=rng.choice([2, 3, rng.randint(3, 12)]))
@@ -70,7 +70,7 @@ def build(rng, casedir, index, nrec=None, untagged=True, force_all_known=False, 
         offs = "any" if not few_anchors else rng.choice(["any", "full", "full"])
         recs.append(ggaf.make_record(g, rng, wk, f"r{index}_{i}", offsets=offs, tags=tags))
     w.walks = walks
-    w.lines, w.text_kind = ggaf.text_variant([r.line for r in recs], rng)
+    w.lines, w.text_kind = ggaf.text_variant([r.line for r in recs], rng, p=0.15 if text_variants else 0.0)
     w.mode = mode or rng.choice(["plain", "plain", "bgzf", "pysam"])
     w.layout = layout or rng.choice(["standard", "tiny", "line_start"])
     w.gaf = os.path.join(casedir, "in.gaf" + ("" if w.mode == "plain" else ".gz"))
